@@ -308,7 +308,10 @@ func (in *Interp) mergeable(fn *ssa.Function) bool {
 		return false
 	}
 	if m, ok := in.P.mergeableCache.Load(fn); ok {
-		if !m.(bool) {
+		if m.(int) == 0 {
+			return false
+		}
+		if m.(int) == 2 && in.run != nil && in.run.cfg.ScalarMergeOnly {
 			return false
 		}
 		_, bad := in.noMerge[fn]
@@ -322,9 +325,14 @@ func (in *Interp) mergeable(fn *ssa.Function) bool {
 	if res.Len() == 0 {
 		ok = false
 	}
+	deep := false
 	for i := 0; ok && i < res.Len(); i++ {
 		if !resultMergeable(res.At(i).Type()) {
 			ok = false
+		}
+		switch res.At(i).Type().Underlying().(type) {
+		case *types.Pointer, *types.Slice, *types.Struct:
+			deep = true
 		}
 	}
 	if ok && in.lookupNative(fn) != nil {
@@ -333,7 +341,17 @@ func (in *Interp) mergeable(fn *ssa.Function) bool {
 	if ok && fn.Pkg != nil && fn.Pkg.Pkg.Path() == in.P.vvPath {
 		ok = false
 	}
-	in.P.mergeableCache.Store(fn, ok)
+	code := 0
+	if ok {
+		code = 1
+		if deep {
+			code = 2
+		}
+	}
+	in.P.mergeableCache.Store(fn, code)
+	if code == 2 && in.run != nil && in.run.cfg.ScalarMergeOnly {
+		return false
+	}
 	return ok
 }
 
